@@ -58,6 +58,10 @@ Definition sx_otentry (t : otentry) : sx :=
   end.
 Definition sx_otext (l : list otentry) : sx := sx_sorted_list sx_otentry l.
 
+(* pretty(): the statements without their order (the tree is walked category by category) *)
+From DD Require Import Obj.ObjViews.
+Definition sx_opretty (l : list pystr) : sx := SL (sx_sort (map sx_str l)).
+
 (* the text of a path and what it denotes: level.path() and the level's object *)
 Definition sx_opath_text (t : ovalue) (p : opath) : sx :=
   SL [sx_str (orender p); sx_opt sx_ovalue (oextract t (orender p))].
